@@ -579,6 +579,12 @@ impl WorldInner {
         None
     }
 
+    /// TCP: the instant at which the connection attempt made by wire packet `wire` resolves
+    /// (SYN-ACK or RST reaches the host), if it ever does.
+    pub fn tcp_outcome_of_wire(&self, wire: WireId) -> Option<(u64, RespKind)> {
+        self.socks.iter().filter_map(|s| s.tcp.as_ref()).find(|c| c.wire == wire).and_then(|c| c.outcome)
+    }
+
     pub fn calls(&self) -> usize {
         self.call_idx
     }
